@@ -3,7 +3,7 @@ CONSTANTS
   MaxLeaves = 4
   MaxArity = 3
   UnaryUpTo = 2
-  Pats = {2}
+  Pats = {3}
   Depth = 2
 INVARIANT L_Domain
 INVARIANT L_ReadOnly
